@@ -241,7 +241,14 @@ def execute(case, ctx):
                         if p.get('name') == 'keyword.control.preprocessor':
                             check_class(findings, detail, 'vscode', 'preprocessor', p['match'], PREPROC, prefix='#', ctx_before='')
     # ---------------- Sublime
-    r = runner.run_forked(['generate-extension', 'sublime', '-c', fname, '-d', '.'], {fname: text}, crosscheck=False)
+    sb_files = {fname: text}
+    if case.get('regenerate'):
+        # a package generated earlier from another vocabulary (same name and version) already sits in the directory
+        r0 = runner.run_forked(['generate-extension', 'sublime', '-c', fname, '-d', '.'], {fname: old_text}, crosscheck=False)
+        evals += 1
+        if r0.klass == 'accepted':
+            sb_files.update({k: v for k, v in r0.outputs.items() if k.endswith('.sublime-package')})
+    r = runner.run_forked(['generate-extension', 'sublime', '-c', fname, '-d', '.'], sb_files, crosscheck=False)
     evals += 1
     pk = [k for k in r.outputs if k.endswith('.sublime-package')]
     if r.klass != 'accepted' or not pk:
@@ -253,6 +260,8 @@ def execute(case, ctx):
             if bad:
                 raise zipfile.BadZipFile(bad)
             names = z.namelist()
+            if len(set(names)) != len(names):
+                raise zipfile.BadZipFile('member stored more than once: ' + ', '.join(sorted(n for n in set(names) if names.count(n) > 1))[:120])
         except Exception as e:
             findings.append(Finding('C20/sublime/malformed-package', dict(detail, error=str(e)[:200])))
             names = []
